@@ -142,10 +142,10 @@ def observe(case: Dict[str, Any]) -> Dict[str, Any]:
     logging.disable(logging.CRITICAL)
     try:
         rec = build_record(case)
+        bio = rec.to_biopython()
     except Exception as exc:  # pylint: disable=broad-except
         # the layout could not be turned into a record (other properties' business): nothing to check
         return {"build_err": err_kind(exc), "msg": str(exc)[:200]}
-    bio = rec.to_biopython()
     for i, feature in enumerate(bio.features):
         feature.qualifiers[SRC] = [str(i)]
     parent = bio_features(bio)
@@ -486,6 +486,8 @@ class C12(Property):
                 parts.insert(0, [x - 8, x - 3, strand])
             if rng.random() < 0.3:
                 parts.append([y + 3, y + 7, strand])
+            if rng.random() < 0.08:      # three abutting exons (KF-C12-abutting-exons)
+                parts = [[x, length, strand], [0, 4, strand], [4, 9, strand], [9, 13, strand]]
             if strand == -1:
                 parts.reverse()
             case["cds"].append({"loc": {"c": True, "parts": parts}, "name": f"over{i}"})
@@ -634,11 +636,14 @@ class C12(Property):
                     if (rl["n_protos"], rl["n_cands"], rl["n_subs"]) != (
                             r["content"]["n_protos"], len(r["content"]["cands"]), len(r["content"]["subs"])):
                         problems.append("loaded record has other areas than the region's")
+            if problems and d.get("kf_abutting_exons") and any(p.startswith("features not covering") for p in problems):
+                class_here = "KF-C12-abutting-exons"
             if problems:
                 spec = False
                 details.append(f"{where}: " + "; ".join(problems))
                 allowed = ("file does not load", "loaded region differs") + (
-                    ("motif_locs fails",) if class_here == "KF-C12-prepeptide-cut" else ())
+                    ("motif_locs fails",) if class_here == "KF-C12-prepeptide-cut" else ()) + (
+                    ("features not covering", "features extracting different") if class_here == "KF-C12-abutting-exons" else ())
                 only_reload = all(p.startswith(allowed) for p in problems)
                 if class_here and only_reload and known != "none":
                     known = known or class_here      # several regions may fail, each inside some class
